@@ -511,6 +511,36 @@ def run(ctx):
             cm = canon(orig, norm_nodes(rm)) if rm else b
             if cm != cpost:
                 disagreements.append({"input": req, "pre_graph": g, "impl": cpost, "model": cm})
+    # histories: the recursive definitions are USED again by later additions to the same type space (`add_type` of an object with
+    # an optional / a required member, an array, a nullable union referring to each definition). The generated types of the
+    # type space must still have no containment cycle without a heap indirection, and what was there must be what it was.
+    hist = {"requests": 0, "then_ok": 0, "then_other": 0}
+    hreq = []
+    nh = 400 if ctx.tier == "thorough" else 60
+    for req, a in zip(schemas, sans):
+        v = parse_answer(a)
+        if v is None or len(hreq) >= nh: continue
+        names = sorted((req["schema"].get("definitions") or {}).keys())[:4]
+        if not names: continue
+        then = []
+        for n in names:
+            r = {"$ref": "#/definitions/" + n}
+            then.append({"title": "HoldOpt" + n, "type": "object", "properties": {"m": r}})
+            then.append({"title": "HoldReq" + n, "type": "object", "properties": {"m": r, "l": {"type": "array", "items": r}}, "required": ["m"]})
+            then.append({"title": "HoldNul" + n, "type": "object", "properties": {"m": {"oneOf": [r, {"type": "null"}]}}})
+        hreq.append({"schema": req["schema"], "then": then})
+    if hreq:
+        hans, hhang = run_impl(ctx, [json.dumps(r, sort_keys=True) for r in hreq], "impl_history", budget)
+        if hhang is None:
+            for req, a in zip(hreq, hans):
+                v = parse_answer(a)
+                if v is None: continue
+                hist["requests"] += 1
+                for t in v.get("then") or []: hist["then_ok" if t == "ok" else "then_other"] += 1
+                post = norm_nodes(v["post"])
+                cyc = find_cycle(post, set(post))
+                if cyc: impl_fail.append((req, "history", ("cycle", "after the later additions the type space has a containment cycle without indirection: %r" % (cyc,))))
+    ctx.log("histories: %r" % (hist,))
     # compiled-code stage: "... so the types have finite size and compile". The accepted schema documents are emitted and
     # handed to rustc (tools/batch.py). E0072 (infinite size) is the property's own failure; E0055 on a cycle made of
     # newtypes only is the listed finding; other codes belong to C01 (duplicate names, ...) and are counted only.
@@ -584,7 +614,7 @@ def run(ctx):
         "model_disagreements": len(disagreements),
         "impl_oracle_failures_new": len(new_fail), "impl_oracle_failures_known": known_hit,
         "out_of_model_domain": unsupported,
-        "schema_answers": sdist, "compiled_schema_cases": comp,
+        "schema_answers": sdist, "compiled_schema_cases": comp, "histories": hist,
         "exhaustive": False,
     }
     vlib.write_evidence(ctx, "proof", cov, [
@@ -616,6 +646,11 @@ def replay(ctx, path):
     print("input:", line); print("impl :", a)
     if v is None: return 0
     pre, post = norm_nodes(v["pre"]), norm_nodes(v["post"])
+    if req.get("then"):
+        # a history: the type space after the later additions must have no containment cycle without indirection
+        cyc = find_cycle(post, set(post))
+        print("later additions:", v.get("then")); print("containment cycle without indirection:", cyc)
+        return 1 if cyc else 0
     fails = oracle(pre, post, v["lo"], v["hi"], whole=True)
     d = None
     if have_model:
